@@ -213,6 +213,9 @@ Proof. vm_compute. reflexivity. Qed.
 Lemma facts_callers : callers_ok fn_names ctx_inits caller_sites = true.
 Proof. vm_compute. reflexivity. Qed.
 
+Lemma facts_no_ctx_substitution : substs_ok fn_names ctx_substs = true.
+Proof. vm_compute. reflexivity. Qed.
+
 Lemma facts_shapes : shape_good shape_read = true /\ shape_good shape_write = true.
 Proof.
   pose proof facts_hold as H. unfold facts_ok in H.
